@@ -33,47 +33,51 @@ theorem unresolved_objects_reported (root : Obj) (ch : Forest) (hr : root.resolv
   intro d hd
   have hv : valid (.cons root ch .nil) = true := hr
   rw [run_omit _ hv]
-  exact mem_commonDiags_tree _ _ d hd
+  exact List.mem_append_left _ (mem_commonDiags_tree _ _ d hd)
 
-/-! ### (b') "every error is still reported", read against generate mode (finding F21) -/
+/-! ### (b') "every error is still reported", read against generate mode -/
 
 /-- full reading: whatever generate mode reports for a document, preview (omit) mode reports as well -/
 def every_error_reported_full_statement : Prop :=
   ∀ doc : Forest, ∀ d ∈ (run .generate doc).diags, d ∈ (run .omit doc).diags
 
-/-- `QWidget { text: srcSpin.value }`-like witness: a dynamic binding whose return type does not fit the property.
-    Only `UiSupportCode::build` runs `verify_code_return_type` on code that is not an evaluated constant, and omit mode
-    never builds the support code. -/
+/-- **Every error is still reported** (since the repair of F21, /repo c47e7fb): preview mode builds the support code
+    for its diagnostics and discards it, so it reports the errors of every phase — object tree, code maps, constant
+    pass, left-over attached check (`errors_not_lost`) *and* the C++ pass (return type of code that is not an evaluated
+    constant, missing READ / WRITE of its target, nested dynamic maps). -/
+theorem every_error_reported : every_error_reported_full_statement := by
+  intro doc d hd
+  cases h : valid doc
+  · rw [(run_invalid doc h .generate).1] at hd
+    exact hd
+  · rw [run_generate doc h] at hd
+    rw [run_omit doc h]
+    exact hd
+
+/-- in fact the two modes report the same diagnostics in the same order -/
+theorem omit_diags_eq_generate (doc : Forest) : (run .omit doc).diags = (run .generate doc).diags := by
+  cases h : valid doc
+  · rw [(run_invalid doc h .generate).1]
+  · rw [run_generate doc h, run_omit doc h]
+
+/-- `QWidget { text: srcSpin.value }`-like document: a dynamic binding whose return type does not fit the property.
+    Only `UiSupportCode::build` runs `verify_code_return_type` on code that is not an evaluated constant. -/
 def dynamicMismatchDoc : Forest :=
   .cons { oid := 0, isWidget := true,
           entries := [.leaf { id := 10, name := "text".toList, const := none, retTypeOk := false }] } .nil .nil
 
-/-- **F21**: the ill-typed dynamic binding is an error in generate mode and silently accepted in omit mode -/
-theorem every_error_reported_refuted : ¬ every_error_reported_full_statement := by
-  intro h
-  have := h dynamicMismatchDoc ⟨10, .cxxRetType⟩ (by decide)
-  revert this
-  decide
+/-- preview mode as it was before c47e7fb: the support code is not built, only the diagnostics of the phases before
+    the mode switch are reported -/
+def runOmitOld (doc : Forest) : Result :=
+  let r := run .omit doc
+  if valid doc then { r with diags := commonDiags r.objects (place .root doc).2 } else r
 
-/-- what does hold: the only errors preview mode does not report are those of the C++ pass (return type of code that
-    is not an evaluated constant, missing READ / WRITE of its target, nested dynamic maps); every error of the object
-    tree, of the code maps, of the constant pass and of the left-over attached check is reported (`errors_not_lost`) -/
-theorem every_error_reported_partial (doc : Forest) :
-    ∀ d ∈ (run .generate doc).diags, d ∈ (run .omit doc).diags ∨ d.kind = .cxxRetType ∨
-      d.kind = .cxxNotReadable ∨ d.kind = .cxxNotWritable ∨ d.kind = .cxxNested := by
-  intro d hd
-  cases h : valid doc
-  · rw [(run_invalid doc h .generate).1] at hd
-    exact .inl hd
-  · rw [run_generate doc h] at hd
-    rw [run_omit doc h]
-    simp only [List.mem_append] at hd
-    rcases hd with hd | hd
-    · exact .inl hd
-    · exact .inr (cxxAll_diags _ d hd)
-
-example : (run .generate dynamicMismatchDoc).diags = [⟨10, .cxxRetType⟩] ∧ (run .omit dynamicMismatchDoc).diags = [] ∧
-    (run .omit dynamicMismatchDoc).accepted = true := by
+/-- the old behaviour loses the error (finding F21, repaired): generate mode reports the ill-typed dynamic binding,
+    the old preview accepts the document silently, the repaired preview reports it -/
+theorem runOmitOld_loses_error :
+    (run .generate dynamicMismatchDoc).diags = [⟨10, .cxxRetType⟩] ∧
+    (runOmitOld dynamicMismatchDoc).diags = [] ∧ (runOmitOld dynamicMismatchDoc).accepted = true ∧
+    (run .omit dynamicMismatchDoc).diags = [⟨10, .cxxRetType⟩] ∧ (run .omit dynamicMismatchDoc).accepted = false := by
   and_intros <;> decide
 
 /-! ### (c) planted faults, as edits of the objects with id `n` -/
